@@ -12,6 +12,20 @@ pub trait VxIterExt<T>: Sized {
             r@ == self.vx_seq(),
     ;
 
+    /// slice::iter (N11: `.iter()` on a Vec is renamed to this where adapters follow)
+    fn vx_iter<'a>(&'a self) -> (r: Vec<&'a T>)
+        ensures
+            r@.len() == self.vx_seq().len(),
+            forall|i: int| #![trigger r@[i]] #![trigger self.vx_seq()[i]] 0 <= i < r@.len() ==> *r@[i] == self.vx_seq()[i],
+    ;
+
+    /// slice::first
+    fn vx_first<'a>(&'a self) -> (r: Option<&'a T>)
+        ensures
+            self.vx_seq().len() == 0 ==> r is None,
+            self.vx_seq().len() > 0 ==> r == Some(&self.vx_seq()[0]),
+    ;
+
     fn enumerate(self) -> (r: Vec<(usize, T)>)
         ensures
             r@.len() == self.vx_seq().len(),
@@ -21,6 +35,7 @@ pub trait VxIterExt<T>: Sized {
     fn skip(self, n: usize) -> (r: Vec<T>)
         ensures
             r@ == (if n <= self.vx_seq().len() { self.vx_seq().subrange(n as int, self.vx_seq().len() as int) } else { Seq::empty() }),
+            forall|i: int| n <= i < self.vx_seq().len() ==> #[trigger] self.vx_seq()[i] == r@[i - n],
     ;
 
     /// Iterator::next on the sequence: removes and returns the first element
@@ -74,6 +89,16 @@ impl<T> VxIterExt<T> for Vec<T> {
     #[verifier::external_body]
     fn vx_into_iter(self) -> (r: Vec<T>) {
         self
+    }
+
+    #[verifier::external_body]
+    fn vx_iter<'a>(&'a self) -> (r: Vec<&'a T>) {
+        self.iter().collect()
+    }
+
+    #[verifier::external_body]
+    fn vx_first<'a>(&'a self) -> (r: Option<&'a T>) {
+        self.first()
     }
 
     #[verifier::external_body]
@@ -174,4 +199,17 @@ pub fn vx_opt_cloned<T: Copy>(o: Option<&T>) -> (r: Option<T>)
         o is Some ==> r == Some(*o->Some_0),
 {
     o.cloned()
+}
+
+/// collecting Results: Ok of all payloads iff every element is Ok (std stops at the first Err)
+impl<T, E> VxFromVec<Result<T, E>> for Result<Vec<T>, E> {
+    open spec fn from_vec_post(s: Seq<Result<T, E>>, r: Result<Vec<T>, E>) -> bool {
+        &&& r is Ok <==> forall|i: int| 0 <= i < s.len() ==> (#[trigger] s[i]) is Ok
+        &&& r is Ok ==> r->Ok_0@.len() == s.len() && forall|i: int| 0 <= i < s.len() ==> s[i]->Ok_0 == #[trigger] r->Ok_0@[i]
+    }
+
+    #[verifier::external_body]
+    fn vx_from_vec(v: Vec<Result<T, E>>) -> (r: Result<Vec<T>, E>) {
+        v.into_iter().collect()
+    }
 }
